@@ -73,12 +73,23 @@ class PaginationBorders(Contract):
     target = "pagination/processor.py::PageFeatureProcessor._apply_pagination_borders"
     serves = ["C07", "C09", "C14"]
     models = [PolarsModel(), StrModel()]
-    handlers = {"deepcopy": h_deepcopy, "new:BroadcastValue": new_bv}
+    @property
+    def handlers(self):
+        def h_type(I, st, args, kwargs, node):
+            # representative-field abstraction: `type(page_attrs).model_fields` enumerates the fields this harness models (two border
+            # matrices, one generic matrix attribute, the one-row border_first/border_last); every other field of the real class is
+            # treated by the loop body exactly like one of these
+            o = st.obj(args[0]) if isinstance(args[0], Ref) else None
+            if isinstance(o, RecObj) and o.cls == "TableAttributes":
+                return st.alloc(RecObj("type", {"model_fields": st.alloc(DictObj(items={k: None for k in o.fields}, fresh=True))}, fresh=True))
+            from pyvc.calls import call_builtin
+            return call_builtin(I, st, "type", args, kwargs, node)
+        return {"deepcopy": h_deepcopy, "new:BroadcastValue": new_bv, "type": h_type}
     summaries = {"BroadcastValue.update_cell": update_cell_summary}
     truth_vars = {"has_column_headers", "has_footnote_on_page", "has_source_on_page", "footnote_as_table_on_last", "source_as_table_on_last",
                   "has_border_top", "footnote_table_on_page", "source_table_on_page"}
-    variants = ["first_notlast", "middle", "last_notfirst", "only_page"]
-    loops_optional = {2, 3, 4}        # which of the three column loops is reachable depends on the page kind (variant)
+    variants = [f"{k}.{sh}" for k in ("first_notlast", "middle", "last_notfirst", "only_page") for sh in ("rowsN", "rows1")]
+    loops_optional = {5, 6, 7}        # which of the three column loops is reachable depends on the page kind (variant)
     merge_ifs = True
     max_paths = 20000
     frame = "strict"
@@ -89,6 +100,7 @@ class PaginationBorders(Contract):
                 lambda I, st, ref, o, what: ref == self._compref]
 
     def setup(self, c):
+        kind, shape = c.variant.split(".")
         proc_cls = c.cls("rtflite.pagination.processor", "PageFeatureProcessor")
         ta_cls = c.cls("rtflite.attributes", "TableAttributes")
         c.bind("self", c.alloc(RecObj("PageFeatureProcessor", {}, pyclass=proc_cls, fresh=False)))
@@ -98,16 +110,26 @@ class PaginationBorders(Contract):
         # processed per-page table attributes (matrices of the body's borders, any shape)
         bt = c.fresh("border_top", T.Matrix(T.Str))
         bb = c.fresh("border_bottom", T.Matrix(T.Str))
+        tf = c.fresh("text_font", T.Matrix(T.Int))
+        one = lambda name: c.alloc(ListObj(items=[c.alloc(ListObj(items=[c.fresh(name, T.Str)], fresh=False))], fresh=False))
         tattrs = c.alloc(RecObj("TableAttributes", {"border_top": bt, "border_bottom": bb,
-                                                    "border_first": c.fresh("ta_border_first", T.Matrix(T.Str)),
-                                                    "border_last": c.fresh("ta_border_last", T.Matrix(T.Str)),
-                                                    "text_font": c.fresh("text_font", T.Matrix(T.Int))}, pyclass=ta_cls, fresh=False, origin="CALLER"))
+                                                    "border_first": one("ta_border_first"), "border_last": one("ta_border_last"),
+                                                    "text_font": tf}, pyclass=ta_cls, fresh=False, origin="CALLER"))
+        rs = c.fresh("row_start", T.Int)
+        c.requires("row_start_nonneg", rs >= 0)
+        mx, mm = z3.Ints("mx mm")
+        # arithmetic fact handed to the solver as a hint (valid for all integers): a value already inside [0, m) is its own residue
+        c.requires("lemma_mod_identity", ForAll([mx, mm], Implies(And(0 <= mx, mx < mm), mx % mm == mx), patterns=[mx % mm]))
+        # attribute shapes: full matrices (more than one row) or scalar / per-column vectors (one row); each attribute is treated
+        # independently by the code, the two variants cover both treatments
+        for mref in (bt, bb, tf):
+            c.requires("attribute_row_count", c.obj(mref).rows > 1 if shape == "rowsN" else c.obj(mref).rows == 1)
         comp = DictObj(items={}, fresh=False)
         comp.tag = "component_borders"
         compref = c.alloc(comp)
-        fl = {"first_notlast": (True, False), "middle": (False, False), "last_notfirst": (False, True), "only_page": (True, True)}[c.variant]
+        fl = {"first_notlast": (True, False), "middle": (False, False), "last_notfirst": (False, True), "only_page": (True, True)}[kind]
         first, last = z3.BoolVal(fl[0]), z3.BoolVal(fl[1])
-        page = c.alloc(RecObj("PageContext", {"table_attrs": tattrs, "data": page_df, "is_first_page": fl[0], "is_last_page": fl[1],
+        page = c.alloc(RecObj("PageContext", {"table_attrs": tattrs, "data": page_df, "row_start": rs, "is_first_page": fl[0], "is_last_page": fl[1],
                                               "component_borders": compref}, fresh=False))
         # document
         body_bf = c.fresh("body_border_first", T.Matrix(T.Str))
@@ -137,6 +159,7 @@ class PaginationBorders(Contract):
         c.bind("page", page)
         mo = lambda ref: c.obj(ref)
         self._compref = compref
+        c.v.update(rs=rs, tf=mo(tf), tf0=mo(tf).cell)
         c.v.update(h=h, w=w, first=first, last=last, pbf=pbf, pbl=pbl, pfn=pfn, psrc=psrc, nh=nh, bt=mo(bt), bb=mo(bb), bf=mo(body_bf),
                    bl=mo(body_bl), btop=mo(body_bt), compref=compref, tattrs=tattrs,
                    fn=(fn_none, fn_txt, fn_tab), src=(src_none, src_txt, src_tab), bt0=mo(bt).cell, bb0=mo(bb).cell)
@@ -161,10 +184,11 @@ class PaginationBorders(Contract):
         bf, btop = v["bf"], v["btop"]
 
         def user_top(r, col):
-            return v["bt0"](r % v["bt"].rows, col % v["bt"].cols)
+            # the user's value at the ORIGINAL row: page row r is table row row_start + r
+            return v["bt0"]((v["rs"] + r) % v["bt"].rows, col % v["bt"].cols)
 
         def user_bottom(r, col):
-            return v["bb0"](r % v["bb"].rows, col % v["bb"].cols)
+            return v["bb0"]((v["rs"] + r) % v["bb"].rows, col % v["bb"].cols)
 
         def body_first(col):
             base = If(col < bf.cols, bf.cell(IntVal(0), col), bf.cell(IntVal(0), IntVal(0)))
@@ -193,22 +217,33 @@ class PaginationBorders(Contract):
             """Invariant factory for `for col_idx in range(width): apply(style) at (row, col_idx)` on page_attrs.<field>."""
             def before(I, st):
                 pa = st.obj(st.env["page_attrs"])
-                m = st.obj(pa.fields[field])
-                st.ghost[f"pre_{field}"] = (m.rows, m.cols, m.cell)
+                val = pa.fields[field]
+                m = st.obj(val)
+                if isinstance(m, MatrixObj):
+                    st.ghost[f"pre_{field}"] = (m.rows, m.cols, m.cell)
+                else:
+                    ln, lg = seq_view(st, val)
+                    c0 = seq_view(st, lg(IntVal(0)))[0]
+                    st.ghost[f"pre_{field}"] = (ln, c0, lambda rr, cc, lg=lg: seq_view(st, lg(rr))[1](cc))
 
             def inv(vv):
                 st = vv.state
                 pa = st.obj(st.env["page_attrs"])
                 m = st.obj(pa.fields[field])
+                if not isinstance(m, MatrixObj):
+                    ln, lg = seq_view(st, pa.fields[field])
+                    c0 = seq_view(st, lg(IntVal(0)))[0]
+                    m = MatrixObj(ln, c0, lambda rr, cc, lg=lg: seq_view(st, lg(rr))[1](cc))
                 rows0, cols0, cell0 = st.ghost[f"pre_{field}"]
                 r, col = z3.Ints("ir ic")
                 row = row_of(vv)
                 sty = style_of(vv)
-                bc = lambda rr, cc: m.cell(rr % m.rows, cc % m.cols)
+                gm = lambda x, mod, full: If(mod == full, x, x % mod)        # guarded mod: identity when the extent is the page's
+                bc = lambda rr, cc: m.cell(gm(rr, m.rows, v["h"]), gm(cc, m.cols, v["w"]))
                 return {"shape": And(m.rows >= 1, m.cols >= 1, Implies(vv.i > 0, And(m.rows == v["h"], m.cols == v["w"]))),
                         "done_columns_have_style": ForAll([col], Implies(And(0 <= col, col < vv.i), bc(row, col) == sty(col))),
                         "everything_else_as_before": ForAll([r, col], Implies(And(0 <= r, r < v["h"], 0 <= col, col < v["w"], Or(r != row, col >= vv.i)),
-                                                                            bc(r, col) == cell0(r % rows0, col % cols0)))}
+                                                                            bc(r, col) == cell0(gm(r, rows0, v["h"]), gm(col, cols0, v["w"]))))}
 
             def havoc(I, st, name, ref):
                 pa = st.obj(ref)
@@ -228,12 +263,12 @@ class PaginationBorders(Contract):
                 override = And(btop.rows > 0, btop.cols > bf.cols, col < btop.cols, btop.cell(IntVal(0), col) != lit(""))
                 return If(override, btop.cell(IntVal(0), col), base)
             return sty
-        # loop ordinals in _apply_pagination_borders: 0,1 comprehensions (border_top fill), 2,3 (border_bottom fill), 4 first-page loop,
-        # 5 not-last bottom loop, 6 last-page bottom loop;  inlined _apply_body_border_first: loops #0 (list branch), #1 (scalar branch)
+        # loop ordinals in _apply_pagination_borders: 0 model_fields loop, 1 row re-selection comprehension, 2/3 border fill comprehensions,
+        # 4 first-page loop, 5 not-last bottom loop, 6 last-page bottom loop;  inlined _apply_body_border_first: loops #0 (list branch), #1 (scalar branch)
         self.loops = {
-            2: col_loop("border_top", zero, lambda vv: (lambda col: pbf.payload)),
-            3: col_loop("border_bottom", lastrow, lambda vv: (lambda col: bl.cell(IntVal(0), IntVal(0)))),
-            4: col_loop("border_bottom", lastrow, lambda vv: (lambda col: pbl.payload)),
+            5: col_loop("border_top", zero, lambda vv: (lambda col: pbf.payload)),
+            6: col_loop("border_bottom", lastrow, lambda vv: (lambda col: bl.cell(IntVal(0), IntVal(0)))),
+            7: col_loop("border_bottom", lastrow, lambda vv: (lambda col: pbl.payload)),
             "PageFeatureProcessor._apply_body_border_first#0": col_loop("border_top", zero, body_first_style),
         }
 
@@ -249,13 +284,30 @@ class PaginationBorders(Contract):
             pass
         # empty page: returned as copied
         top, bot = res.fields["border_top"], res.fields["border_bottom"]
-        if not isinstance(top, Ref) or not isinstance(st.obj(top), MatrixObj) or not isinstance(bot, Ref):
+        if not isinstance(top, Ref) or not isinstance(bot, Ref):
             return {**cl, "border_matrices_present": z3.BoolVal(False)}
-        mt, mb = st.obj(top), st.obj(bot)
-        cl["C07.top_edges"] = Implies(v["h"] > 0, ForAll([r, col], Implies(inrange, mt.cell(r % mt.rows, col % mt.cols) == sp["top"](r, col))))
-        cl["C07.bottom_edges"] = Implies(v["h"] > 0, ForAll([r, col], Implies(inrange, mb.cell(r % mb.rows, col % mb.cols) == sp["bottom"](r, col))))
+        def as_matrix(ref):
+            o = st.obj(ref)
+            if isinstance(o, MatrixObj):
+                return o
+            ln, lg = seq_view(st, ref)
+            c0 = seq_view(st, lg(IntVal(0)))[0]
+            return MatrixObj(ln, c0, lambda rr, cc, lg=lg: seq_view(st, lg(rr))[1](cc))
+        mt, mb = as_matrix(top), as_matrix(bot)
+        gm = lambda x, mod, full: If(mod == full, x, x % mod)
+        cl["C07.top_edges"] = Implies(v["h"] > 0, ForAll([r, col], Implies(inrange, mt.cell(gm(r, mt.rows, v["h"]), gm(col, mt.cols, v["w"])) == sp["top"](r, col))))
+        cl["C07.bottom_edges"] = Implies(v["h"] > 0, ForAll([r, col], Implies(inrange, mb.cell(gm(r, mb.rows, v["h"]), gm(col, mb.cols, v["w"])) == sp["bottom"](r, col))))
         cl["border_first_last_not_broadcast_to_all_rows"] = Implies(v["h"] > 0, z3.BoolVal(res.fields["border_first"] is None and res.fields["border_last"] is None))
-        cl["other_attributes_copied_unchanged"] = z3.BoolVal(True)
+        tfv = res.fields.get("text_font")
+        sv = seq_view(st, tfv) if tfv is not None else None
+        if sv is None:
+            cl["C09.matrix_attribute_rows_follow_original_rows"] = z3.BoolVal(False)
+        else:
+            ln, lg = sv
+            gm2 = lambda x, mod, full: If(mod == full, x, x % mod)
+            rowv = seq_view(st, lg(gm2(r, ln, v["h"])))
+            cl["C09.matrix_attribute_rows_follow_original_rows"] = Implies(v["h"] > 0, ForAll([r, col], Implies(inrange,
+                rowv[1](col % rowv[0]) == v["tf0"]((v["rs"] + r) % v["tf"].rows, col % v["tf"].cols))))
         # component border override: the border that closes the table goes to the table-rendered component shown on this page
         comp = st.obj(v["compref"])
         fn_none, fn_txt, fn_tab = v["fn"]
